@@ -103,6 +103,7 @@ func (m *Machine) step(th *Thread) (yielded bool) {
 	in := fr.block.Instrs[fr.pc]
 	m.curFn = fr.fn
 	if p := in.Pos(); p.IsValid() {
+		m.curPos = p
 		cs, ok := m.siteCache[p]
 		if !ok {
 			cs = m.L.posStr(p)
@@ -339,7 +340,10 @@ func (m *Machine) exec(th *Thread, fr *Frame, in ssa.Instruction) bool {
 		if len(fr.defers) > 0 {
 			d := fr.defers[len(fr.defers)-1]
 			fr.defers = fr.defers[:len(fr.defers)-1]
-			if m.invoke(th, fr, d.fn, d.args, nil, true) == invYield {
+			m.deferPos = d.pos
+			st := m.invoke(th, fr, d.fn, d.args, nil, true)
+			m.deferPos = token.NoPos
+			if st == invYield {
 				fr.defers = append(fr.defers, d)
 				return true
 			}
@@ -351,7 +355,7 @@ func (m *Machine) exec(th *Thread, fr *Frame, in ssa.Instruction) bool {
 		panic(&goPanic{kind: "explicit panic: " + m.describe(v), value: v})
 	case *ssa.Defer:
 		f, args := m.resolveCallee(fr, &x.Call)
-		fr.defers = append(fr.defers, &deferred{fn: f, args: args, site: m.curSite})
+		fr.defers = append(fr.defers, &deferred{fn: f, args: args, site: m.curSite, pos: x.Pos()})
 		fr.pc++
 	case *ssa.Go:
 		f, args := m.resolveCallee(fr, &x.Call)
@@ -359,6 +363,10 @@ func (m *Machine) exec(th *Thread, fr *Frame, in ssa.Instruction) bool {
 			return true
 		}
 		nt := m.newThread(m.funcName(f))
+		if th.nid >= 0 && m.L.Instr().schedSite(m.L.Fset, x.Pos()) != "" {
+			nt.nid = m.nextNid
+			m.nextNid++
+		}
 		// happens-before: go statement
 		nt.vc = m.vcJoin(nt.vc, th.vc)
 		m.vcTick(th)
@@ -458,7 +466,10 @@ func (m *Machine) continuePanic(th *Thread) {
 		if len(fr.defers) > 0 {
 			d := fr.defers[len(fr.defers)-1]
 			fr.defers = fr.defers[:len(fr.defers)-1]
-			switch m.invoke(th, fr, d.fn, d.args, nil, true) {
+			m.deferPos = d.pos
+			st := m.invoke(th, fr, d.fn, d.args, nil, true)
+			m.deferPos = token.NoPos
+			switch st {
 			case invPushed:
 				return
 			case invYield:
